@@ -277,7 +277,8 @@ def semTile (t : Tile) : List (Option SemLayer) := t.layers.map semLayer
 
 /-! ### `VectorTileLayer::filter_map_properties` (layer.rs:154-180) -/
 
-/-- first pass: `filter_fn(self.decode_tag_ids(&feature.tag_ids).unwrap())` – the `unwrap` is a panic site -/
+/-- first pass: `decode_tag_ids(&feature.tag_ids)` then `filter_fn`; an invalid tag id is an `Err`
+    (since `fix:` e60b9a05; before, `.unwrap()` made it a panic) -/
 def fmpDecode (keys : List Bytes) (vals : List Value) (f : Props → Option Props) :
     List Feature → Outcome (List (Feature × Props))
   | [] => .ok []
@@ -291,7 +292,7 @@ def fmpDecode (keys : List Bytes) (vals : List Value) (f : Props → Option Prop
         | none => .ok rest
       | .err => .err
       | .panic => .panic
-    | .err => .panic
+    | .err => .err
     | .panic => .panic
 
 /-- third pass: `f.tag_ids = self.encode_tag_ids(p)` in order, tables growing -/
